@@ -352,7 +352,7 @@ func SlLen(s Term) Term {
 	if a, ok := ctorArgs(s, s.Sort.Name+"_mk"); ok && len(a) == 2 {
 		return Term{a[0], SInt}
 	}
-	return mk(SInt, s.Sort.Name+"_len", s)
+	return mk(SInt, s.Sort.Name+"_n", s)
 }
 func SlArr(s Term) Term {
 	if a, ok := ctorArgs(s, s.Sort.Name+"_mk"); ok && len(a) == 2 {
